@@ -34,6 +34,8 @@ def run(repo, res, tier):
     t2 = parserules.add_rule(res, an, "T2")
     t2p = parserules.add_rule(res, an, "T2P")
     t2pkeys = {(f.function, f.anchor) for f in t2p}
+    t2s = parserules.add_rule(res, an, "T2S")
+    t2skeys = {(f.function, f.anchor) for f in t2s}
     t5 = parserules.add_rule(res, an, "T5")
     t8 = parserules.add_rule(res, an, "T8")
     t9 = parserules.add_rule(res, an, "T9")
@@ -54,6 +56,8 @@ def run(repo, res, tier):
                        detail="caught: " + ",".join(sorted(caught)), nontrivial="LexerError" in caught or True)
         if any(x in h for x in ("Exception", "<bare>", "BaseException")):
             res.oblige("T2P", f"{fn} except {h}: a ParseError caught here is not carried on from", ok=(fn, f"except {h}") not in t2pkeys)
+        if "StopIteration" in caught or any(x in h for x in ("StopIteration", "Exception", "<bare>", "BaseException")):
+            res.oblige("T2S", f"{fn} except {h}: running out of tokens inside an open block is not carried on from", ok=(fn, f"except {h}") not in t2skeys)
         if "ValueError" in caught:
             res.oblige("T1", f"{fn} except {h}", ok=f"{fn} except {h}" not in t1handlers,
                        detail="plain ValueError caught here; consumed tokens must have been sent back")
